@@ -10,9 +10,11 @@ import (
 	"fmt"
 	"os"
 	"os/exec"
+	"path/filepath"
 	"reflect"
 	"sort"
 	"strings"
+	"sync"
 	"time"
 
 	"github.com/runreveal/pql"
@@ -84,6 +86,10 @@ func scenarios() []scenario {
 			{c("let n = 10; T | take n", 2), c("T | where n > 3 | project n", 2)},
 			{c("let n = 7; let m = n; T | where a == m", 2)},
 		}},
+		{Name: "S9-scan-parse-results-retained", Threads: [][]call{
+			{{"scan", "a b c", -1}, {"scan", "T | where aa == 1 and bb == 2 and cc == 3 and dd == 4 | project aa, bb, cc, dd, ee, ff | take 5", -1}, {"scan", "x", -1}},
+			{{"parse", "T | where a | project b", -1}, {"scan", "Other | where zz1 == zz2 or zz3 == zz4 or zz5 == zz6 or zz7 == zz8 or zz9 == zz10 | count | count | count", -1}, {"parse", "U", -1}},
+		}},
 		{Name: "S6-two-threads-two-calls", Threads: [][]call{
 			{c("T | where isnotnull(a)", -1), c("T | where isnotnull(a)", -1)},
 			{c("T | extend x = tolower(s)", -1), {"parse", "T | count", -1}},
@@ -94,6 +100,43 @@ func scenarios() []scenario {
 type result struct {
 	Out string
 	Err string
+}
+
+// live keeps the objects a call returned, so that they can be rendered again
+// later: a result must not change because of calls made after it returned.
+type live struct {
+	call   call
+	tokens []parser.Token
+	stmts  []parser.Statement
+	first  string
+}
+
+var liveMu sync.Mutex
+var lives []*live
+
+func keepLive(l *live) {
+	liveMu.Lock()
+	lives = append(lives, l)
+	liveMu.Unlock()
+}
+
+// recheckLive renders every kept result again and reports the first that changed.
+func recheckLive() (changed *live, now string) {
+	liveMu.Lock()
+	defer liveMu.Unlock()
+	defer func() { lives = nil }()
+	for _, l := range lives {
+		var cur string
+		if l.tokens != nil {
+			cur = fmt.Sprintf("%v", l.tokens)
+		} else {
+			cur = fmt.Sprintf("%d:%s", len(l.stmts), describe(l.stmts))
+		}
+		if cur != l.first {
+			return l, cur
+		}
+	}
+	return nil, ""
 }
 
 func doCall(c call, opts []*pql.CompileOptions) result {
@@ -114,12 +157,18 @@ func doCall(c call, opts []*pql.CompileOptions) result {
 	case "parse":
 		st, err := parser.Parse(c.Src)
 		r := result{Out: fmt.Sprintf("%d:%s", len(st), describe(st))}
+		keepLive(&live{call: c, stmts: st, first: r.Out})
 		if err != nil {
 			r.Err = err.Error()
 		}
 		return r
 	case "scan":
-		return result{Out: fmt.Sprintf("%v", parser.Scan(c.Src))}
+		toks := parser.Scan(c.Src)
+		r := result{Out: fmt.Sprintf("%v", toks)}
+		if toks != nil {
+			keepLive(&live{call: c, tokens: toks, first: r.Out})
+		}
+		return r
 	case "split":
 		return result{Out: fmt.Sprintf("%q", parser.SplitStatements(c.Src))}
 	}
@@ -169,6 +218,7 @@ type obs struct {
 
 func (e *explorer) runOnce(prefix []int) (*rt.Execution, *obs, error) {
 	rt.Restore()
+	recheckLive() // drop objects kept by earlier executions
 	opts := mkOptions()
 	o := &obs{opts: opts, results: make([][]result, len(e.sc.Threads))}
 	bodies := make([]func(), len(e.sc.Threads))
@@ -252,6 +302,10 @@ func (e *explorer) check(ex *rt.Execution, o *obs, prefix []int, err error) {
 			}
 		}
 	}
+	if l, now := recheckLive(); l != nil {
+		fail("result-changed-after-return:"+l.call.Kind, fmt.Sprintf("the value returned by %s %q changed after later calls: first %.200s, now %.200s", l.call.Kind, l.call.Src, l.first, now))
+		return
+	}
 	pristine := mkOptions()
 	for i := range pristine {
 		if !reflect.DeepEqual(pristine[i], o.opts[i]) {
@@ -327,7 +381,8 @@ func (e *explorer) explore(prefix []int, bound int) {
 }
 
 func main() {
-	if len(os.Args) >= 3 && os.Args[1] == "-fresh" {
+	if len(os.Args) >= 4 && os.Args[1] == "-fresh" {
+		setTier(os.Args[3])
 		freshMain(os.Args[2])
 		return
 	}
@@ -335,8 +390,13 @@ func main() {
 	if len(os.Args) > 1 {
 		tier = os.Args[1]
 	}
-	if tier == "thorough" {
-		s5Source = "T | where f(a) > 1 and not(b)"
+	if tier == "--replay" {
+		// a replay file names its tier: the scenarios of the two tiers differ
+		if len(os.Args) >= 3 {
+			setTier(replayTier(os.Args[2]))
+		}
+	} else {
+		setTier(tier)
 	}
 	rt.Snapshot()
 	if tier == "--replay" {
@@ -366,7 +426,7 @@ func main() {
 		}
 		return true, ""
 	}
-	r.Rule = "stateless model checking of the real pql code under a controlled cooperative scheduler: 8 scenarios of 2-3 threads x 1-2 calls (cold start of the lazily built function table, shared options value with let statements, Parse/Scan/SplitStatements, mixed) are explored exhaustively over all interleavings of scheduling points " +
+	r.Rule = "stateless model checking of the real pql code under a controlled cooperative scheduler: 9 scenarios of 2-3 threads x 1-3 calls (cold start of the lazily built function table, shared options value with let statements, Parse/Scan/SplitStatements, mixed) are explored exhaustively over all interleavings of scheduling points " +
 		"(every access to a package-level variable that is ever written, every access to a shared map that is ever written, every sync/atomic operation) up to a preemption bound, plus all sequential call histories up to depth 3; oracle: each call returns exactly what it returns when made first in a fresh state, " +
 		"no co-enabled conflicting accesses (data race), no deadlock, parameter maps unchanged. states = nodes of the schedule tree, transitions = scheduling decisions executed, traces validated = complete executions of the real code"
 	r.Assume = []string{"sequentially consistent interleavings at instrumented points; reads of objects that no execution ever writes commute and are not scheduling points (iterated to a fixpoint)",
@@ -440,6 +500,16 @@ func main() {
 	os.Exit(r.Finish())
 }
 
+var currentTier = "quick"
+
+// setTier selects the tier-dependent parts of the scenarios; the fresh-process helper must see the same ones.
+func setTier(tier string) {
+	currentTier = tier
+	if tier == "thorough" {
+		s5Source = "T | where f(a) > 1 and not(b)"
+	}
+}
+
 // freshMain runs the calls of a scenario thread by thread in this (fresh) process and prints the results.
 func freshMain(name string) {
 	for _, sc := range scenarios() {
@@ -475,7 +545,7 @@ func freshCheck(w *run.Worker, sc scenario, expected [][]result) {
 		inproc = append(inproc, rs)
 	}
 	for round := 0; round < 2; round++ {
-		out, err := exec.Command(os.Args[0], "-fresh", sc.Name).Output()
+		out, err := exec.Command(os.Args[0], "-fresh", sc.Name, currentTier).Output()
 		if err != nil {
 			w.Fail("harness:fresh-process", sc.Name, err.Error(), nil)
 			return
@@ -526,6 +596,12 @@ func histories(w *run.Worker, r *run.Runner, tier string) {
 		{"T | extend a +  b | summarize max(a + b) by c // x", -1},
 		{"T | where a == 'unterminated\n", -1},
 		{"T | where a == 'unterminated\r\n", -1},
+		// the same mistake at the same byte offsets on a different line / column
+		{"T |\njoin kind=bogus (R) on k", 0},
+		{"T |\tjoin kind=bogus (R) on k", 0},
+		{"Té| join kind=bogus (R) on k", 0},
+		{"T | where not(a,\nb)", -1},
+		{"T | where not(a, b)", -1},
 	}
 	// nil, zero value and empty map are equivalent on every kind of source
 	for _, src := range []string{"let n = 10; T | take n", "let n = 1; let m = n + 1; T | where a == m | take n", "T | where p == 1", "let p = 2; T | where not(p, 1)", "T | join kind=x (R) on k"} {
@@ -593,6 +669,11 @@ func histories(w *run.Worker, r *run.Runner, tier string) {
 		}
 		for i := range alphabet {
 			seq = append(seq, i)
+			if len(seq) <= 2 {
+				// one watchdog case per two-call prefix
+				w.Begin("histories", fmt.Sprint(seq))
+				w.Nontrivial()
+			}
 			rec()
 			seq = seq[:len(seq)-1]
 		}
@@ -674,4 +755,12 @@ func replayMain(path string) int {
 	}
 	fmt.Println("not reproduced on this tree")
 	return 0
+}
+
+// replayTier: replay files are named <ID>-<tier>-<n>.json by the run engine.
+func replayTier(path string) string {
+	if strings.Contains(filepath.Base(path), "-thorough-") {
+		return "thorough"
+	}
+	return "quick"
 }
